@@ -7,6 +7,7 @@ Inductive icase :=
          (panicked : bool)
 | IGracePar (pairs : list (list bool * list bool)) (panicked : bool)   (* per owner: answers alone / with all owners on concurrent goroutines *)
 | IExpect (ops : list eop) (obs : list (option bool)) (alone : list (list string * list bool)) (panicked : bool)
+| IWatch (ops : list (string * bool)) (obs : list string) (panicked : bool)   (* per reconcile: "proceed" | "watched-now" | "error" *)
 | IParK (what : string) (pairs : list (string * string)) (panicked : bool)   (* like IPar, for another piece of process-wide state *)
 | IPar (pairs : list (string * string)) (panicked : bool).   (* per rollout: digest of its objects after running alone / concurrently with the others *)
 Definition case := icase.
@@ -42,6 +43,18 @@ Definition judge (c : case) : list verdict :=
     [ if list_eqb (opt_eqb Bool.eqb) (erun eempty ops) obs && negb p then VOk else VMismatch;
       clause "C19_creation_expectations_as_alone"
         (forallb (fun a => list_eqb Bool.eqb (observed_eanswers (fun k => existsb (String.eqb k) (fst a)) ops obs) (snd a)) alone) ]
+  | IWatch ops obs p =>
+    let names := map (fun r => match r with WProceed => "proceed" | WWatchedNow => "watched-now" | WError => "error" end) (watch_run [] ops) in
+    [ if list_eqb String.eqb names obs && negb p then VOk else VMismatch;
+      (* a reconcile proceeds without registering a watch only if a watch for its type was registered successfully before *)
+      clause "C19_no_rollout_runs_without_its_workload_watch"
+        ((fix go (seen : list string) (ops : list (string * bool)) (obs : list string) : bool :=
+            match ops, obs with
+            | (g, ok) :: t, o :: t' =>
+              (negb (String.eqb o "proceed") || existsb (String.eqb g) seen) &&
+              go (if String.eqb o "watched-now" then g :: seen else seen) t t'
+            | _, _ => true end) [] ops obs);
+      clause "C19_no_panic" (negb p) ]
   | IParK what pairs p =>
     [ clause ("C19_same_as_alone_" ++ what) (forallb (fun x => String.eqb (fst x) (snd x)) pairs); clause "C19_no_panic" (negb p) ]
   | IPar pairs p =>
@@ -54,6 +67,7 @@ Definition tag (c : case) : string :=
   | IGrace _ _ alone _ => if (zlen alone <=? 2)%Z then "grace/2-owners" else "grace/3-owners"
   | IGracePar _ _ => "grace/concurrent"
   | IExpect _ _ _ _ => "expectations/store"
+  | IWatch _ _ _ => "watch-registry"
   | IParK what _ _ => "parallel/" ++ what
   | IPar pairs _ => if (zlen pairs <=? 2)%Z then "parallel/2-rollouts" else "parallel/3-rollouts"
   end.
